@@ -1120,6 +1120,16 @@ func (data *Data) UserPrivilege(name, database string) (*influxql.Privilege, err
 func (data *Data) Clone() *Data {
 	other := *data
 
+	// The node lists are modified in place by some mutators (and appended to
+	// and sorted by others), so they must not share storage with data.
+	if data.MetaNodes != nil {
+		other.MetaNodes = make([]NodeInfo, len(data.MetaNodes))
+		copy(other.MetaNodes, data.MetaNodes)
+	}
+	if data.DataNodes != nil {
+		other.DataNodes = make([]NodeInfo, len(data.DataNodes))
+		copy(other.DataNodes, data.DataNodes)
+	}
 	other.Databases = data.CloneDatabases()
 	other.Users = data.CloneUsers()
 
